@@ -1,6 +1,8 @@
 mod alloc;
 mod c12;
+mod c13;
 mod c14;
+mod c15;
 mod c16;
 mod chan;
 mod driver;
@@ -14,7 +16,7 @@ use driver::{PropDef, Tier};
 static GLOBAL: alloc::CountingAlloc = alloc::CountingAlloc;
 
 fn props() -> Vec<&'static PropDef> {
-    vec![&chan::C06, &chan::C07, &chan::C08, &reg::C01, &reg::C02, &reg::C03, &reg::C04, &reg::C18, &c14::C14, &c12::C12, &c16::C16]
+    vec![&chan::C06, &chan::C07, &chan::C08, &reg::C01, &reg::C02, &reg::C03, &reg::C04, &reg::C18, &c14::C14, &c12::C12, &c16::C16, &c15::C15, &c13::C13]
 }
 
 fn find(id: &str) -> &'static PropDef {
